@@ -420,6 +420,9 @@ pub fn run_c20(ctx: &mut Ctx) {
     } else {
         ctx.count("clock-interposer-live");
     }
+    if !cfg!(miri) && crate::clock::probe_env() {
+        ctx.count("getenv-interposer-live");
+    }
     let n = ctx.n(12_000, 120_000);
     let mut rng = ctx.rng("c20", 0);
     for i in 0..n {
@@ -454,6 +457,7 @@ pub fn run_c20(ctx: &mut Ctx) {
     ctx.require("threaded-runs", 50);
     if !cfg!(miri) {
         ctx.require("clock-interposer-live", 1);
+        ctx.require("getenv-interposer-live", 1);
     }
 }
 
